@@ -3,7 +3,7 @@
 From Coq Require Import String List NArith ZArith PArith Permutation Sorted.
 Import ListNotations.
 Require Import Verif.Relmod.Model Verif.Relmod.PayloadProps Verif.Relmod.StmtProps Verif.Relmod.Run Verif.Relmod.CensusProps Verif.Relmod.OrderProps Verif.Relmod.Rebuild
-  Verif.Relmod.Shape Verif.Gen.RelmodShape.
+  Verif.Relmod.KindProps Verif.Relmod.SetProps Verif.Relmod.Shape Verif.Gen.RelmodShape.
 
 (* position paths of the Stmt rows of one endpoint are pairwise distinct - for the path construction the CURRENT
    source uses (Gen.RelmodShape) *)
@@ -86,9 +86,17 @@ Print Assumptions C17_one_stmt_row_per_visible_statement.
    payload reader (Payload.parse_payload, the embedded grammar transliterated) does not accept ---- *)
 Theorem C17_refused_iff : forall cm am g m,
   (normalize cm am g m = Refused \/ normalize cm am g m = Crashed) <->
-  exists ap e s, In ap m /\ In e (ap_eps ap) /\ ep_visits_stmts e = true /\ In s (e_stmts e) /\ reaches_bad g s.
+  (exists ap e s, In ap m /\ In e (ap_eps ap) /\ ep_visits_stmts e = true /\ In s (e_stmts e) /\ reaches_bad g s) \/
+  (exists ap v, In ap m /\ In v (ap_views ap) /\ nil_view g v).
 Proof. exact refused_iff. Qed.
 Print Assumptions C17_refused_iff.
+(* for the CURRENT source (parseFieldType guards a nil type) only the first cause exists *)
+Theorem C17_refused_iff_current : forall m,
+  (normalize child_index_mode alt_index_mode payload_grammar m = Refused \/
+   normalize child_index_mode alt_index_mode payload_grammar m = Crashed) <->
+  exists ap e s, In ap m /\ In e (ap_eps ap) /\ ep_visits_stmts e = true /\ In s (e_stmts e) /\ reaches_bad payload_grammar s.
+Proof. exact current_refused_iff. Qed.
+Print Assumptions C17_refused_iff_current.
 
 (* ---- never a crash: for the payload reader of the CURRENT source no module whatsoever ends in a panic ---- *)
 Theorem C17_never_crashes : forall m, normalize child_index_mode alt_index_mode payload_grammar m <> Crashed.
@@ -101,6 +109,16 @@ Theorem C17_never_crashes_refuted_for_unchecked_duplicates :
   exists m, normalize CopyParent CopyParent grammar_before m = Crashed.
 Proof. exact normalize_never_crashes_refuted_for_unchecked_duplicates. Qed.
 Print Assumptions C17_never_crashes_refuted_for_unchecked_duplicates.
+(* ... and refuted for a parseFieldType that dereferences a nil type: a module holding one view without a return type
+   (`!view v(p <: T): p -> (: ... )`) ends in a panic; with the guard it has its View row *)
+Theorem C17_never_crashes_refuted_for_nil_view_type :
+  exists m, normalize CopyParent CopyParent
+              {| g_prim_mode := PrimWord; g_prims := []; g_mods := ModsSorted; g_dup := DupRefused; g_nil := NilDeref |} m = Crashed /\
+            exists rs, normalize CopyParent CopyParent
+              {| g_prim_mode := PrimWord; g_prims := []; g_mods := ModsSorted; g_dup := DupRefused; g_nil := NilGuarded |} m = Rows rs /\
+                       rel_count RView rs = 1.
+Proof. exact normalize_never_crashes_refuted_for_nil_view_type. Qed.
+Print Assumptions C17_never_crashes_refuted_for_nil_view_type.
 
 (* ---- what the payload reader extracts is canonical, for every payload text: a status, the modifiers as a strictly
    ascending list (so the row is a function of the SET of modifiers - the code sorts them: g_mods = ModsSorted), the
@@ -155,6 +173,73 @@ Theorem C17_annotations_order_independent : forall o a keys p zs at_ at_',
 Proof. exact meta_order_independent. Qed.
 Print Assumptions C17_annotations_order_independent.
 
+(* ---- every kind of type, every constraint form, views: what reaches the rows and what does not ----
+   The rows are a function of the canonical form `erase m` (KindProps.v: references resolved, lists looked through,
+   enum / relation / map / one-of / unset kinds in a field, parameter, alias or view position collapsed, each
+   constraint list replaced by its fold, map / one-of / list / no-type / kind-less declarations collapsed, view
+   parameters and expressions removed): full, every module. *)
+Theorem C17_rows_blind_to_erasure : forall m,
+  normalize child_index_mode alt_index_mode payload_grammar (erase m) = normalize child_index_mode alt_index_mode payload_grammar m.
+Proof. exact current_rows_blind_to_erasure. Qed.
+Print Assumptions C17_rows_blind_to_erasure.
+Theorem C17_erase_idempotent_and_projection_kept :
+  (forall m, erase (erase m) = erase m) /\
+  (forall m rs, normalize child_index_mode alt_index_mode payload_grammar m = Rows rs ->
+                project payload_grammar (erase m) = project payload_grammar m).
+Proof. exact (conj erase_idempotent erase_keeps_projection). Qed.
+Print Assumptions C17_erase_idempotent_and_projection_kept.
+
+(* the four numbers of a Field row: length of the LAST constraint that has one, precision and scale of the LAST
+   constraint (full, every constraint list); for the one-constraint lists the compiler writes they are that constraint's
+   length, precision and scale (partial: "same constraints" holds for these three) *)
+Theorem C17_constraint_fold_spec : forall cs,
+  field_constraint cs = [fst (last_len cs); snd (last_len cs); fst (last_prec_scale cs); snd (last_prec_scale cs)].
+Proof. exact constraint_fold_spec. Qed.
+Print Assumptions C17_constraint_fold_spec.
+Theorem C17_field_constraints_kept_partial : forall c,
+  field_constraint [c] =
+  [match c_len c with Some (mn, _) => mn | None => 0%Z end; match c_len c with Some (_, mx) => mx | None => 0%Z end;
+   c_prec c; c_scale c].
+Proof. exact single_constraint_exact. Qed.
+Print Assumptions C17_field_constraints_kept_partial.
+(* refuted for bit width and range: `x <: int32`, `x <: int64` and `x <: int` (compiled shapes) have the same rows *)
+Theorem C17_field_constraints_kept_refuted :
+  kx_norm (kx_app [kx_type 10 (DTuple [kx_int32])] []) = kx_norm (kx_app [kx_type 10 (DTuple [kx_int64])] []) /\
+  kx_norm (kx_app [kx_type 10 (DTuple [kx_int32])] []) = kx_norm (kx_app [kx_type 10 (DTuple [kx_plain_int])] []) /\
+  kx_app [kx_type 10 (DTuple [kx_int32])] [] <> kx_app [kx_type 10 (DTuple [kx_int64])] [] /\
+  (exists rs, kx_norm (kx_app [kx_type 10 (DTuple [kx_int32])] []) = Rows rs /\ rs <> []).
+Proof. exact field_bit_width_and_range_dropped. Qed.
+Print Assumptions C17_field_constraints_kept_refuted.
+(* refuted for the members of a union / the key and value of a map (a Type row only) and for a view's signature *)
+Theorem C17_type_kinds_kept_refuted :
+  (let u1 := DOneOf [MRef None None [40%positive]; MRef None None [41%positive]] in
+   let u2 := DOneOf [MPrim 30%positive] in
+   kx_norm (kx_app [kx_type 10 u1] []) = kx_norm (kx_app [kx_type 10 u2] []) /\
+   kx_norm (kx_app [kx_type 10 u1] []) = kx_norm (kx_app [kx_type 10 (DMap (MPrim 30%positive) (MPrim 31%positive))] []) /\
+   kx_norm (kx_app [kx_type 10 u1] []) = kx_norm (kx_app [kx_type 10 (DTuple [])] []) /\
+   kx_app [kx_type 10 u1] [] <> kx_app [kx_type 10 u2] []) /\
+  (let v1 := {| v_name := 50%positive; v_ret := Some (MPrim 30%positive); v_attrs := kx_attrs;
+                v_params := [{| p_name := 51%positive; p_type := Some {| pt_ty := MPrim 30%positive; pt_opt := false; pt_attrs := kx_attrs |} |}];
+                v_expr := 60%positive |} in
+   let v2 := {| v_name := 50%positive; v_ret := Some (MPrim 30%positive); v_attrs := kx_attrs; v_params := []; v_expr := 61%positive |} in
+   kx_norm (kx_app [] [v1]) = kx_norm (kx_app [] [v2]) /\ kx_app [] [v1] <> kx_app [] [v2]).
+Proof. exact (conj union_members_dropped view_signature_dropped). Qed.
+Print Assumptions C17_type_kinds_kept_refuted.
+
+(* ---- `sysl transform`: a script receives every relation as a SET (relmod.Schema's slices are tagged unordered;
+   transform.BuildTransformInput hands over *relmod.Normalize(module): Gen transform_fn_text). The Stmt relation still has
+   exactly one element per visible statement (full); refuted for tags: an element tagged twice with one tag has two equal
+   rows in the slice, one in the set. The conversion is a black box tied by the transform cases (Run.c17_tr_ok). ---- *)
+Theorem C17_stmt_relation_exact_as_a_set : forall g a sa ep stmts,
+  let rows := rel_rows RStmt (map (item_row g a sa ep) (ep_items child_index_mode alt_index_mode stmts)) in
+  NoDup rows /\ List.length rows = list_sum (map visible_stmts stmts).
+Proof. exact current_stmt_set_exact. Qed.
+Print Assumptions C17_stmt_relation_exact_as_a_set.
+Theorem C17_tag_relation_exact_as_a_set_refuted :
+  exists g m rs, normalize CopyParent CopyParent g m = Rows rs /\ rel_count (RTag OApp) rs = 2 /\ ~ NoDup (rel_rows (RTag OApp) rs).
+Proof. exact tag_rows_distinct_refuted. Qed.
+Print Assumptions C17_tag_relation_exact_as_a_set_refuted.
+
 (* ---- obligations against the current source (Gen/RelmodShape.v) ---- *)
 Theorem C17_shape_of_current_source :
   child_index_mode = CopyParent /\ alt_index_mode = CopyParent /\
@@ -162,12 +247,15 @@ Theorem C17_shape_of_current_source :
   (alt_visits_choice_children && alt_appends_choice_row && statement_appends_row && statement_calls_meta)%bool = true /\
   unsorted_map_ranges = [] /\
   (g_prim_mode payload_grammar = PrimWord /\ g_mods payload_grammar = ModsSorted /\ g_dup payload_grammar = DupRefused) /\
+  g_nil payload_grammar = NilGuarded /\
   Forall wordy (g_prims payload_grammar) /\
-  payload_rules = pinned_payload_rules /\ payload_tx = pinned_payload_tx /\ relmod_fn_text = pinned_fn_text.
+  payload_rules = pinned_payload_rules /\ payload_tx = pinned_payload_tx /\ relmod_fn_text = pinned_fn_text /\
+  normalize_fn_text = pinned_normalize_fn_text /\ transform_fn_text = pinned_transform_fn_text.
 Proof.
   exact (conj child_paths_are_fresh (conj alt_paths_are_fresh (conj all_block_kinds_visited
          (conj (f_equal2 andb (f_equal2 andb alt_shape eq_refl) eq_refl) (conj every_map_walk_is_sorted
-         (conj payload_grammar_shape (conj payload_primitives_wordy (conj payload_rules_as_modelled
-         (conj payload_tx_as_modelled relmod_functions_as_modelled))))))))).
+         (conj payload_grammar_shape (conj nil_type_is_guarded (conj payload_primitives_wordy (conj payload_rules_as_modelled
+         (conj payload_tx_as_modelled (conj relmod_functions_as_modelled
+         (conj type_field_view_functions_as_modelled transform_input_as_modelled)))))))))))).
 Qed.
 Print Assumptions C17_shape_of_current_source.
